@@ -7,7 +7,7 @@ import HmsProofs.Lemmas.ConcSpawn
 
 Property theorems only (lemmas: `HmsProofs/Lemmas/ConcProtocol.lean`, `ConcSpawn.lean`).
 Invariants over **all interleavings** of the protocol model `Hms/Conc/Protocol.lean` (fixed
-configuration: after V18, V19, V30), i.e. over every state reachable by `Step`.
+configuration: after V18, V19, H1), i.e. over every state reachable by `Step`.
 
 The claim is *partial*: the theorems cover the locking and signalling protocol; freedom from data
 races in Go's memory model and the behaviour of the Go scheduler are facts about the real
@@ -178,7 +178,7 @@ theorem model_runs_are_interleavings (progs : List (List Act)) (sched : List Nat
     Reach Cfg.fixed (runSys Cfg.fixed sched (Sys.start progs)).proto :=
   runSys_reach sched _ (start_reach progs)
 
-/-! ## Non-vacuity; the regression witness of V30 -/
+/-! ## Non-vacuity; the regression witness of H1 -/
 
 /-- main prints, spawns two workers (one of which spawns a third core) and writes a global. -/
 def demoProgs : List (List Act) :=
@@ -199,12 +199,12 @@ example : (demoRun 1).proto.wait = .returned none ∧ (demoRun 7).proto.wait = .
 example : (runSys Cfg.fixed (schedule 3 400) (Sys.start [[.spawn 1, .print "m", .print "m"], [.fail]])).proto.wait
     = .returned (some (1, .fatal)) := by decide +kernel
 
-/-- V30 (fixed): when `Wait` computed the shortened list *before* taking the write lock, a core
+/-- H1 (fixed): when `Wait` computed the shortened list *before* taking the write lock, a core
 spawned in between was dropped from the list: `Wait` returned `nil` although core 2 was still
 running. Trace: cores 0 and 1; core 0 finishes; `Wait` takes its `nil` (stale list = [1]);
 core 1 spawns core 2 (list = [0, 1, 2]); `Wait` installs the stale list [1]; core 1 finishes;
 `Wait` collects it and returns. -/
-def v30Trace (cfg : Cfg) : PState :=
+def h1Trace (cfg : Cfg) : PState :=
   let s0 := { PState.init.spawn.spawn with wait := .top }
   let s1 := { s0 with core := upd s0.core 0 (sent cfg none) }
   let s2 := waitRun cfg 2 s1                       -- top → scan [0,1] → received 0, wants the write lock
@@ -213,13 +213,13 @@ def v30Trace (cfg : Cfg) : PState :=
   let s5 := { s4 with core := upd s4.core 1 (sent cfg none) }
   waitRun cfg 12 s5
 
-theorem v30_counterexample :
-    (v30Trace ⟨true, false, true⟩).wait = .returned none ∧ (v30Trace ⟨true, false, true⟩).core 2 = .running .idle
-      ∧ (v30Trace ⟨true, false, true⟩).dropped = false := by
-  refine ⟨?_, ?_, ?_⟩ <;> simp [v30Trace, waitRun, waitStep, PState.spawn, PState.init, upd, sent]
+theorem h1_counterexample :
+    (h1Trace ⟨true, false, true⟩).wait = .returned none ∧ (h1Trace ⟨true, false, true⟩).core 2 = .running .idle
+      ∧ (h1Trace ⟨true, false, true⟩).dropped = false := by
+  refine ⟨?_, ?_, ?_⟩ <;> simp [h1Trace, waitRun, waitStep, PState.spawn, PState.init, upd, sent]
 
 /-- With the fixed protocol the same schedule keeps `Wait` waiting for core 2. -/
-example : (v30Trace Cfg.fixed).wait ≠ .returned none ∧ (v30Trace Cfg.fixed).listed = [2] := by
-  constructor <;> simp [v30Trace, waitRun, waitStep, PState.spawn, PState.init, upd, sent, Cfg.fixed]
+example : (h1Trace Cfg.fixed).wait ≠ .returned none ∧ (h1Trace Cfg.fixed).listed = [2] := by
+  constructor <;> simp [h1Trace, waitRun, waitStep, PState.spawn, PState.init, upd, sent, Cfg.fixed]
 
 end HmsProofs.C17
